@@ -47,7 +47,11 @@ TINY = {'t': 1e-7, 'r': 1e-8, 'cam': 1e-10, 'pt': 1e-11}
 
 
 def bump(h, delta):
-    return kgen.H(kgen.F(h) + delta)
+    x = kgen.F(h)
+    y = x + delta
+    if y == x:                      # |x| so large that the increment is absorbed
+        y = x * 2.0 if abs(x) < 1e307 else x / 2.0
+    return kgen.H(y)
 
 
 def mutate(d, rng):
